@@ -817,29 +817,20 @@ void GlobalGraph::makeDirected()
 {
   if (directed_)
     return;
-  // save and clean the undirectedStructure
-  nodeStructureType undirectedStructure = nodeStructure_;
+  // clean the undirected structure
   for (auto& it : nodeStructure_)
   {
     it.second = std::pair<std::map<Node, Edge>, std::map<Node, Edge>>();
   }
 
-  // copy each relation once, without the reciprocal link
-  // (first met, first kept)
+  // copy each relation once, without the reciprocal link, in the
+  // direction the edge structure records (top -> bottom), so that both
+  // structures agree on the orientation
   // eg: A - B in undirected is represented as A->B and B->A
   //     in directed, becomes A->B only
-  std::set<pair<Node, Node>> alreadyConvertedRelations;
-  for (auto& currNodeRow : undirectedStructure)
+  for (const auto& currEdge : edgeStructure_)
   {
-    Node nodeA = currNodeRow.first;
-
-    for (auto& currRelation : currNodeRow.second.first)
-    {
-      Node nodeB = currRelation.first;
-      Edge edge = currRelation.second;
-      if (alreadyConvertedRelations.insert(pair<Node, Node>(min(nodeA, nodeB), max(nodeA, nodeB))).second)
-        linkInNodeStructure_(nodeA, nodeB, edge);
-    }
+    linkInNodeStructure_(currEdge.second.first, currEdge.second.second, currEdge.first);
   }
   directed_ = true;
   this->topologyHasChanged_();
